@@ -32,6 +32,10 @@ pub struct LineC {
   own: Vec<u8>,
   trailing: Option<u8>,
   in_block: bool,
+  /// comment form: 5 = `/* .. */` where the language has it, 6 = `///` in Rust, else a line comment
+  form: u8,
+  /// 6 / 7: the statement is the brace-less body of `while (x)` / `if (x)` on the line before
+  header: u8,
 }
 
 #[derive(Clone, Debug)]
@@ -49,14 +53,18 @@ pub fn strategy() -> BoxedStrategy<Choice> {
     prop::collection::vec(0u8..14, 0..=2),
     prop::option::weighted(0.45, 0u8..14),
     prop::bool::weighted(0.25),
+    0u8..8,
+    0u8..8,
   )
-    .prop_map(|(stmt, own, trailing, in_block)| LineC {
+    .prop_map(|(stmt, own, trailing, in_block, form, header)| LineC {
       stmt,
       own,
       trailing,
       in_block,
+      form,
+      header,
     });
-  (0u8..8, prop::collection::vec(line, 1..10), 1u8..=255, prop::option::weighted(0.2, 0u8..14), any::<u8>())
+  (0u8..9, prop::collection::vec(line, 1..10), 1u8..=255, prop::option::weighted(0.2, 0u8..14), any::<u8>())
     .prop_map(|(lang, lines, rules, tail_comment, fixable)| Choice {
       lang,
       lines,
@@ -76,7 +84,20 @@ const LANGS14: &[SupportLang] = &[
   SupportLang::Java,
   SupportLang::C,
   SupportLang::Ruby,
+  SupportLang::Lua,
 ];
+
+fn has_block_comment(lang: SupportLang) -> bool {
+  matches!(lang, SupportLang::JavaScript | SupportLang::TypeScript | SupportLang::Rust | SupportLang::Go | SupportLang::Java | SupportLang::C)
+}
+
+fn render_comment(lang: SupportLang, lc: &str, form: u8, body: &str) -> String {
+  match form {
+    5 if has_block_comment(lang) => format!("/* {body} */"),
+    6 if lang == SupportLang::Rust => format!("/// {body}"),
+    _ => format!("{lc} {body}"),
+  }
+}
 
 const STMTS: &[&str] = &[
   "foo(1)",
@@ -141,7 +162,7 @@ pub fn interpret(ch: &Choice, _st: &mut Stats) -> Option<Case> {
         _ => ("qux", "3"),
       };
       if let Some(c) = l.own.first() {
-        out.push_str(&format!("{pad}{lc} {}\n", comment_body(*c)));
+        out.push_str(&format!("{pad}{}\n", render_comment(lang, lc, l.form, comment_body(*c))));
       }
       out.push_str(&format!("{pad}{outer}(\n{pad}  {inner}{comma}\n"));
       if let Some(c) = l.own.get(1) {
@@ -150,16 +171,21 @@ pub fn interpret(ch: &Choice, _st: &mut Stats) -> Option<Case> {
       out.push_str(&format!("{pad}){}", if semi { ";" } else { "" }));
     } else {
       for c in &l.own {
-        out.push_str(&format!("{pad}{lc} {}\n", comment_body(*c)));
+        out.push_str(&format!("{pad}{}\n", render_comment(lang, lc, l.form, comment_body(*c))));
       }
       let stmt = STMTS[l.stmt as usize % STMTS.len()];
+      // a loop / conditional without braces: the statement is its body, on a line of its own
+      let braceless = l.header >= 6 && matches!(lang, SupportLang::JavaScript | SupportLang::TypeScript | SupportLang::Java | SupportLang::C);
+      if braceless {
+        out.push_str(&format!("{pad}{} (x)\n  ", if l.header == 6 { "while" } else { "if" }));
+      }
       out.push_str(&format!("{pad}{stmt}{}", if semi { ";" } else { "" }));
     }
     // trailing comments only after single-line statements (the property's quantifier); after the
     // closing line of a multi-line statement the implementation treats the comment as an own-line
     // one and silences the *next* line (observed, outside the property; see DESIGN 12.8)
     if let (Some(t), true) = (l.trailing, (l.stmt as usize) < STMTS.len()) {
-      out.push_str(&format!(" {lc} {}", comment_body(t)));
+      out.push_str(&format!(" {}", render_comment(lang, lc, l.form, comment_body(t))));
     }
     out.push('\n');
     if depth > base {
@@ -219,9 +245,14 @@ fn model(case: &Case, lc: &str, findings: BTreeMap<usize, Vec<(String, usize)>>)
   // suppressions: (comment line, target line, ids)
   let mut sups: Vec<(usize, usize, Option<BTreeSet<String>>)> = vec![];
   for (i, line) in lines.iter().enumerate() {
-    let (code, comment) = match line.find(lc) {
-      Some(p) => (&line[..p], Some(&line[p + lc.len()..])),
-      None => (*line, None),
+    // a line comment (also `///`) or a delimited comment, whichever starts first
+    let (code, comment) = match (line.find(lc), line.find("/*")) {
+      (a, Some(b)) if a.is_none_or(|a| b < a) => {
+        let body = &line[b + 2..];
+        (&line[..b], Some(body.split("*/").next().unwrap_or(body)))
+      }
+      (Some(p), _) => (&line[..p], Some(line[p + lc.len()..].trim_start_matches('/'))),
+      (None, _) => (*line, None),
     };
     let _ = code;
     if let Some(c) = comment {
@@ -432,7 +463,7 @@ pub fn erased() -> crate::fuzz::Erased {
 pub fn run(cfg: &RunCfg) -> i32 {
   let mut report = Report::new(
     cfg,
-    "case = (one of 8 languages with line comments, 1-9 single-line call statements each triggering a known subset of the enabled rules r-foo/r-bar/r-baz/r-qux incl. nested calls, decorated with 0-2 own-line comments and an optional trailing comment drawn from: bare ignore, one id, id lists with odd spacing, unknown id, id of a rule that does not fire, plain note; optional block nesting; optional comment at the end). O-suppress is computed from the text alone. Library stage: CombinedScan::scan in both separate_fix modes incl. unused-suppression entries; CLI stage: sg scan --json=stream in a project with all rules enabled. Non-trivial = distinct case with >= 2 rules, >= 1 suppressed and >= 1 reported finding.",
+    "case = (one of 9 languages with line comments (also written `/* .. */` and, in Rust, `///`), 1-9 single-line call statements each triggering a known subset of the enabled rules r-foo/r-bar/r-baz/r-qux incl. nested calls, decorated with 0-2 own-line comments and an optional trailing comment drawn from: bare ignore, one id, id lists with odd spacing, unknown id, id of a rule that does not fire, plain note; optional block nesting; statements that are the brace-less body of a `while` / `if` on the line before; optional comment at the end). O-suppress is computed from the text alone. Library stage: CombinedScan::scan in both separate_fix modes incl. unused-suppression entries; CLI stage: sg scan --json=stream in a project with all rules enabled. Non-trivial = distinct case with >= 2 rules, >= 1 suppressed and >= 1 reported finding.",
   );
   report.assume("suppression comments only in the placements the property covers: alone on the line before, or trailing a single-line statement");
   let known = Known::load(&cfg.prop);
